@@ -28,7 +28,7 @@ class Contract(object):
                  raises=None, must_raise=(), loops=None, locals=None, serves=(), ghost=None,
                  implicit='check', trusted=False, inline=False, harness=None, note='',
                  cases=None, on_raise=None, pure=False, lemma=False, body=None,
-                 interface_of=None, exc_ensures=None, checks=None, variant='', nullable=(), fresh_result=False):
+                 interface_of=None, exc_ensures=None, checks=None, variant='', nullable=(), fresh_result=False, counts=()):
         self.target = target
         self.params = OrderedDict(params)
         self.returns = returns
@@ -60,6 +60,9 @@ class Contract(object):
         self.variant = variant          # '' = the contract callers use; other variants re-verify the body under other static types
         self.nullable = tuple(nullable)
         self.fresh_result = fresh_result
+        # counts: [(parameter name, ghost name)]: the integer ghost of that object counts the entries into this function (definitional:
+        # incremented when the body is entered; the contract states `== old + 1` and lists the ghost in `modifies`)
+        self.counts = list(counts)
 
     @property
     def name(self):
